@@ -1,12 +1,90 @@
-(* C14 — TensorDict modules read in_keys, write out_keys, sequences compose soundly.  Property theorems only. *)
+(* C14 — TensorDict modules read in_keys, write out_keys, sequences compose soundly.  Property theorems only.
+   Model: Model/C14_Flow.v (dataflow), Model/C14_Interact.v (_dist_sample); spec: Spec/C14_Fold.v. *)
 From Coq Require Import List String Bool.
 Import ListNotations.
-From TD Require Import Model.C14_Flow Model.C14_Interact Proofs.C14_InteractP.
+From TD Require Import Model.C14_Flow Model.C14_Interact Spec.C14_Fold Proofs.C14_FlowP Proofs.C14_InteractP.
 
-(* interact_table: over InteractionType x everything the distribution object can answer, _dist_sample consults exactly
-   what the documented contract says — full statement *)
+(* ---- seq_is_fold: for EVERY module graph whose inner modules write in place (the top module may have any inplace
+   mode, select_out_keys, tensordict_out), every environment: the module returns, and each advertised out key holds
+   the term the plain fold of the leaf modules computes (nested sequences flatten; the execution copy, the final
+   update(keys_to_update=out_keys) and the selection preserve those values) *)
+Theorem C14_seq_is_fold : forall n x o e', top_regular n = true -> buildable n = true ->
+  spec_run (leaves n) (env_of x) = Some e' ->
+  exists x' o' r res, fwd n x o = Done x' o' r /\ result_td (Done x' o' r) = Some res
+    /\ forall k v, List.In k (out_keys n) -> k <> sink -> e' k = Some v -> get k res = Some v.
+Proof. exact seq_is_fold. Qed.
+Print Assumptions C14_seq_is_fold.
+
+(* ... and it raises exactly when the fold meets a missing input *)
+Theorem C14_seq_raises_iff_fold_fails : forall n x o, top_regular n = true ->
+  spec_run (leaves n) (env_of x) = None <-> exists x' o', fwd n x o = Raised x' o'.
+Proof. exact seq_raises_iff_fold_fails. Qed.
+Print Assumptions C14_seq_raises_iff_fold_fails.
+
+(* an inner node: the tensordict it returns IS the fold's environment, key by key *)
+Theorem C14_inner_is_fold : forall n, regular n = true ->
+  forall x, fwd_rel (spec_run (leaves n) (env_of x)) (fwd n x None).
+Proof. exact regular_fwd. Qed.
+Print Assumptions C14_inner_is_fold.
+
+(* ---- in_keys_sufficient: a tensordict holding the advertised in_keys (computed by _compute_in_and_out_keys through any
+   nesting) is enough: no module ever reads a missing key *)
+Theorem C14_in_keys_sufficient : forall n x o, top_regular n = true -> no_sink_in n = true ->
+  (forall k, List.In k (in_keys n) -> has k x = true) ->
+  exists x' o' r, fwd n x o = Done x' o' r.
+Proof. exact in_keys_sufficient. Qed.
+Print Assumptions C14_in_keys_sufficient.
+
+(* ---- out_keys_last_writer: the value of a key after the sequence is the output of the LAST module that lists it
+   (at the last position it occupies in that module's out_keys), applied to what that module read *)
+Theorem C14_out_keys_last_writer : forall pre l post e e', spec_run (pre ++ l :: post) e = Some e' ->
+  exists e1 args, spec_run pre e = Some e1 /\ eread (ins l) e1 = Some args /\
+    forall j k, nth_error (outs l) j = Some k -> k <> sink ->
+      (forall j', j < j' -> nth_error (outs l) j' <> Some k) ->
+      (forall l', List.In l' post -> ~ List.In k (outs l')) ->
+      e' k = Some (App (mid l) j args).
+Proof. exact last_writer. Qed.
+Print Assumptions C14_out_keys_last_writer.
+
+(* the advertised out_keys are exactly the keys some module lists, each once *)
+Theorem C14_out_keys_complete : forall n, regular n = true ->
+  forall k, List.In k (out_keys n) <-> exists l, List.In l (leaves n) /\ List.In k (outs l).
+Proof. exact out_keys_are_writes. Qed.
+Print Assumptions C14_out_keys_complete.
+Theorem C14_out_keys_nodup : forall ms, NoDup (all_out_keys ms).
+Proof. intro ms. apply dedup_last_NoDup. Qed.
+Print Assumptions C14_out_keys_nodup.
+
+(* ---- module_footprint, full statement: entries other than out_keys are the identical bindings afterwards, in the
+   input and in tensordict_out *)
+Definition C14_module_footprint_full_statement : Prop :=
+  forall n x o k, ~ List.In k (out_keys n) -> footprint_statement n x o k.
+(* false today, four ways (D9, D141: the select_out_keys hook; D142: a sequence with select_out_keys; D143: sibling
+   leaves through update(keys_to_update)) *)
+Theorem C14_module_footprint_refuted : exists n x o k, ~ List.In k (out_keys n) /\ ~ footprint_statement n x o k.
+Proof. exact footprint_refuted. Qed.
+Print Assumptions C14_module_footprint_refuted.
+Theorem C14_module_footprint_refuted_seq_select :
+  exists n x k, ~ List.In k (out_keys n) /\ top_regular n = true /\ ~ footprint_statement n x None k.
+Proof. exact footprint_refuted_seq_select. Qed.
+Print Assumptions C14_module_footprint_refuted_seq_select.
+Theorem C14_module_footprint_refuted_tout :
+  exists n x ot k, ~ List.In k (out_keys n) /\ nosel n = true /\ ~ footprint_statement n x (Some ot) k.
+Proof. exact footprint_refuted_tout. Qed.
+Print Assumptions C14_module_footprint_refuted_tout.
+(* on the complement: no select_out_keys anywhere, and no two distinct keys sharing their first component — for EVERY
+   graph (any inplace modes at any level, partial_tolerant, nesting), every input, with or without tensordict_out *)
+Theorem C14_module_footprint_partial : forall U n x o, hdinj U -> nosel n = true ->
+  (forall k, List.In k (all_outs n) -> List.In k U) -> within U x ->
+  (forall ot, o = Some ot -> within U ot) ->
+  forall k, ~ List.In k (out_keys n) -> footprint_statement n x o k.
+Proof. exact footprint_partial. Qed.
+Print Assumptions C14_module_footprint_partial.
+
+(* ---- interact_table: over InteractionType x everything the distribution object can answer, _dist_sample consults
+   exactly what the documented contract says — full statement *)
 Definition C14_interact_table_full_statement : Prop := forall it d, dist_sample it d = spec_sample it d.
-(* ... false today (D146): MEAN on a distribution whose `mean` raises NotImplementedError never reaches the empirical
+(* false today (D146): MEAN on a distribution whose `mean` raises NotImplementedError never reaches the empirical
    estimate written for that case *)
 Theorem C14_interact_table_refuted : exists it d, dist_sample it d <> spec_sample it d.
 Proof. exact interact_table_refuted. Qed.
@@ -14,7 +92,27 @@ Print Assumptions C14_interact_table_refuted.
 Theorem C14_interact_table_partial : forall it d, d146_region it d = false -> dist_sample it d = spec_sample it d.
 Proof. exact interact_table_partial. Qed.
 Print Assumptions C14_interact_table_partial.
-(* with the one-token repair (fixed_D146 := true) the full statement holds *)
+(* with the repair (fixed_D146 := true) the full statement holds *)
 Theorem C14_interact_table_when_fixed : forall it d, dist_sample_gen true it d = spec_sample it d.
 Proof. exact interact_table_when_fixed. Qed.
 Print Assumptions C14_interact_table_when_fixed.
+
+(* ---- non-vacuity *)
+Definition ex_graph : node :=
+  Seq {| sinpl := Some IFalse; ssel := Some [kc]; spt := false; sdict := false |}
+      [Leaf (mk 1 [ka] [kb; sink]); Seq dcfg [Leaf (mk 2 [kb; ka] [kb]); Leaf (mk 3 [kb] [kc; knx])]].
+Example C14_ex_regular : top_regular ex_graph = true /\ buildable ex_graph = true /\ no_sink_in ex_graph = true
+  /\ in_keys ex_graph = [ka] /\ out_keys ex_graph = [kc].
+Proof. repeat split. Qed.
+Example C14_ex_run : fwd ex_graph [(ka, In ka)] None
+  = Done [(ka, In ka)] None
+         (RFresh [(kc, App 3 0 [App 2 0 [App 1 0 [In ka]; In ka]])]).
+Proof. reflexivity. Qed.
+Example C14_ex_footprint_hyp : hdinj [ka; kb; kc] /\ nosel (Seq dcfg [Leaf (mk 1 [ka] [kb]); Leaf (mk 2 [kb] [kc])]) = true.
+Proof.
+  split; [|reflexivity]. intros k k' H1 H2 E.
+  cbn in H1, H2. destruct H1 as [<-|[<-|[<-|[]]]], H2 as [<-|[<-|[<-|[]]]]; cbn in E; try reflexivity; discriminate.
+Qed.
+Example C14_ex_last_writer : exists e', spec_run [mk 1 [ka] [kb]; mk 2 [kb] [kb; kb]] (env_of [(ka, In ka)]) = Some e'
+  /\ e' kb = Some (App 2 1 [App 1 0 [In ka]]).
+Proof. eexists. split; reflexivity. Qed.
